@@ -1,4 +1,5 @@
 """C09 — Bridged requests traverse every hop; replies unwrap to the target's reply."""
+import collections
 import socket
 
 from ..lib import lean, rng as rnglib
@@ -34,6 +35,8 @@ ASSUMPTIONS = [
     'to a frame that does not match (re-queue, retry accounting) is property C04 and is neither modelled nor generated here',
     'RMCP / session-header packing of the fake datagrams is not under test here (C05): auth type none, fixed layout',
     'inner command is not Send Message itself (as the property says); header fields and addresses are naturals in range',
+    'Target.set_routing is modelled as REPLACING the stored path (Model/Bridge.lean: Target.setRouting / reroute / '
+    'request; theorems reroute_last, reroute_peel_all); tied by the re-routing histories on one real Target object',
 ]
 TRUSTED = ['harness/translate/ipmb.py', 'harness/props/c09.py']
 
@@ -77,10 +80,38 @@ def _tuples(routing):
 FORMS = ('list', 'string', 'info', 'ctor-list', 'ctor-string')
 
 
+# the paths configured on ANY Target in this process so far (most recent last): a reported case carries them
+# and the replay configures them on throw-away Targets first (the property gives set_routing no memory)
+PROCESS_HISTORY = 12
+_all_paths = []
+
+
+def _process_before(n, routing=()):
+    """of the first n paths configured in this process: the last PROCESS_HISTORY ones and (first and last 20 of)
+    the earlier ones that share a hop's address pair with `routing`"""
+    keys = set((r[0], r[1]) for r in routing)
+    old = _all_paths[:max(0, n - PROCESS_HISTORY)]
+    rel = [x for x in old if any((r[0], r[1]) in keys for r in x[0])]
+    if len(rel) > 40:
+        rel = rel[:20] + rel[-20:]
+    return [[[list(r) for r in path], form] for path, form in rel + _all_paths[max(0, n - PROCESS_HISTORY):n]]
+
+
+def replay_process_before(case, verbose=True):
+    for path, form in case.get('process_before') or []:
+        if verbose:
+            print('  configured on another Target before (%s): %s' % (form, [tuple(r) for r in path]))
+        try:
+            _apply_path(None, [tuple(r) for r in path], form)
+        except Exception:  # noqa
+            pass
+
+
 def _apply_path(t, routing, form):
     """one re-routing of Target `t` (None: create it) through the public API"""
     from pyipmi import Target
     tuples = _tuples(routing)
+    _all_paths.append((tuple(routing), form))
     if t is None and form.startswith('ctor'):
         return Target(routing[-1][1], routing=repr(tuples) if form == 'ctor-string' else tuples)
     if t is None:
@@ -244,21 +275,24 @@ def judge_bridge(ctx, drv, routing, hdr, seq, payload, model=None, as_string=Fal
             'data': lean.hexs(payload), 'as_string': as_string, 'nth': nth}
     if history:
         case['history'] = history
+    before = len(_all_paths)
     real = real_bridge(routing, hdr, seq, payload, as_string, nth, history)
     if model is not None and model != real:
         ctx.disagree('encode_bridged_message', case, model, real)
     stale = ''
     if history and real != real_bridge(routing, hdr, seq, payload, as_string, nth):
         stale = ':after-rerouting'       # a fresh Target with the same path behaves differently
-    return judge_bridge_frame(ctx, drv, case, real, routing, hdr, seq, payload, stale)
+    return judge_bridge_frame(ctx, drv, case, real, routing, hdr, seq, payload, stale, before)
 
 
-def judge_bridge_frame(ctx, drv, case, real, routing, hdr, seq, payload, stale=''):
+def judge_bridge_frame(ctx, drv, case, real, routing, hdr, seq, payload, stale='', before=0):
     """the bytes `real` of encode_bridged_message against the chain of specification bridges for `routing`"""
     _violate = ctx.violate
 
     class _C(object):      # signatures of history-only violations are distinct
         def violate(self, sig, what, case, expected=None, observed=None):
+            if before and 'process_before' not in case:
+                case = dict(case, process_before=_process_before(before, routing))
             _violate(sig + stale, what + (' (Target re-routed before)' if stale else ''), case, expected, observed)
     ctx = _C()
     if not real.startswith('ok '):
@@ -345,19 +379,24 @@ def judge_transport(ctx, drv, sc, check_model=True):
     hdr = (sc['target'], sc['lun'], sc['netfn'], sc['slave'], 0, seq, sc['cmd'])
     payload = lean.unhex(sc['data'])
     # 1st pass without any reply: what does the code transmit?
+    before = len(_all_paths) if 'process_before' not in sc else 0
     sent, _, _ = real_transport(sc, [])
+    stale = ''
     if sc.get('history'):
         fresh = dict(sc)
         fresh.pop('history')
         if real_transport(fresh, [])[0] != sent:
-            _violate = ctx.violate
+            stale = ':after-rerouting'
+    _violate = ctx.violate
 
-            class _C(object):      # signatures of history-only violations are distinct
-                disagree = ctx.disagree
+    class _C(object):      # signatures of history-only violations are distinct; the case carries the process history
+        disagree = ctx.disagree
 
-                def violate(self, sig, what, case, expected=None, observed=None):
-                    _violate(sig + ':after-rerouting', what + ' (Target re-routed before)', case, expected, observed)
-            ctx = _C()
+        def violate(self, sig, what, case, expected=None, observed=None):
+            if before:
+                case = dict(case, process_before=_process_before(before, sc['routing']))
+            _violate(sig + stale, what + (' (Target re-routed before)' if stale else ''), case, expected, observed)
+    ctx = _C()
     if not sent or sent[0] is None:
         ctx.violate('C09:transport:no-frame', 'nothing (or no IPMI-over-LAN datagram) was transmitted', case,
                     expected='one datagram', observed=repr(sent)[:200])
@@ -620,10 +659,11 @@ def run_two_targets(ops, hdr, seq, payload):
 
 def judge_two_targets(ctx, drv, ops, hdr, seq, payload):
     case = {'op': 'two-targets', 'ops': ops, 'hdr': list(hdr), 'seq': seq, 'data': lean.hexs(payload)}
+    before = len(_all_paths)
     for name, (real, routing) in run_two_targets(ops, hdr, seq, payload).items():
         fresh = real_bridge(routing, hdr, seq, payload)
         judge_bridge_frame(ctx, drv, dict(case, judged=name), real, routing, hdr, seq, payload,
-                           ':other-target' if real != fresh else '')
+                           ':other-target' if real != fresh else '', before)
 
 
 def _run_two_targets(ctx, drv, rng, n, max_depth):
@@ -697,6 +737,7 @@ def replay(ctx, v):
     drv = ctx.driver('drv_c09')
     c2 = ctx.__class__('C09', 'quick', 0)
     op = case['op']
+    replay_process_before(case)
     if op == 'bridge':
         routing = [tuple(r) for r in case['routing']]
         hdr, seq, payload = tuple(case['hdr']), case['seq'], lean.unhex(case['data'])
